@@ -867,7 +867,10 @@ def _extract_unit(repo, unit, log, canary=False):
             raise Lost(f"slice /{unit['slice']}/ matched {len(hits)} times, expected {unit['slice_count']}")
         if len(hits) <= occ:
             raise Lost(f"slice /{unit['slice']}/ occurrence {occ} not found")
-        if hits[occ].re.groups:
+        if hits[occ].re.groups and unit.get("slice_groups") == "all":
+            # several statements of one block, with what lies between them (logging, look-ups handed in as parameters) left out
+            expr = "\n    ".join(text[hits[occ].start(g):hits[occ].end(g)] for g in range(1, hits[occ].re.groups + 1))
+        elif hits[occ].re.groups:
             expr = text[hits[occ].start(1):hits[occ].end(1)]
         else:
             st = hits[occ].start()
